@@ -128,3 +128,22 @@ def coord2 (p h : Nat) : W2 := undoLoop2 p (grayDecode2 (transpose2 p h))
 def dist2 (p : Nat) (c : W2) : Nat := untranspose2 p (grayEncode2 p (redoLoop2 p c))
 
 end SpVerif.Hilbert
+
+namespace SpVerif.Hilbert
+
+/-! ## reference: the classical quadrant recursion (specification side of C07, n = 2) -/
+
+/-- place the order-`p` sub-curve `c` into quadrant `d` of the order-`p+1` square:
+`0`: lower-left, transposed; `1`: upper-left; `2`: upper-right; `3`: lower-right, anti-transposed -/
+def quad (p d : Nat) (c : W2) : W2 :=
+  match d with
+  | 0 => (c.2, c.1)
+  | 1 => (c.1, 2 ^ p + c.2)
+  | 2 => (2 ^ p + c.1, 2 ^ p + c.2)
+  | _ => (2 ^ p + (2 ^ p - 1 - c.2), 2 ^ p - 1 - c.1)
+
+def hilbertRec : Nat → Nat → W2
+  | 0, _ => (0, 0)
+  | (p+1), h => quad p (h / 4 ^ p) (hilbertRec p (h % 4 ^ p))
+
+end SpVerif.Hilbert
